@@ -145,7 +145,8 @@ def rand_desc(rng, cls, dim):
     d = {"cls": cls, "pos": pos, "radius": float(rng.choice([0.0, 0.3, 0.45, 0.8, 1.5, float(rng.uniform(0.1, 2))])),
          "width": None, "amps": None}
     if cls != "SphericalDroplet":
-        d["width"] = None if rng.random() < 0.3 else float(rng.uniform(0.1, 1.0))
+        wk = rng.random()
+        d["width"] = None if wk < 0.3 else (0.0 if wk < 0.45 else float(rng.uniform(0.1, 1.0)))
     if cls == "PerturbedDroplet2D":
         d["amps"] = [float(a) for a in rng.uniform(-0.2, 0.2, 2)]
     return d
